@@ -114,6 +114,9 @@ fn run_schedule(sched: &[Value], slow_ms: u64, seed: u64) -> Result<(Vec<Observe
                     if with_timeout {
                         client.set_timeout(Duration::from_millis(TIMEOUT_MS));
                     }
+                    // every other request goes through a clone of the configured client, the usual way of sharing one
+                    // client between tasks: a clone answers to the same configuration
+                    let client = if id % 2 == 1 { client.clone() } else { client };
                     sent.push((id, if with_timeout { TIMEOUT_MS } else { 0 }));
                     let obs = obs.clone();
                     tasks.push(tokio::spawn(async move {
